@@ -3033,6 +3033,8 @@ coap_handle_request_put_block(coap_context_t *context,
 
   if (update_data) {
     /* Update saved data */
+    /* The body is making progress: it is not to expire counted from its start */
+    coap_ticks(&lg_srcv->last_used);
 #if COAP_Q_BLOCK_SUPPORT
     lg_srcv->rec_blocks.processing_payload_set =
         block.num / COAP_MAX_PAYLOADS(session);
